@@ -132,6 +132,55 @@ theorem qMat_psd (m : ℕ) (P : ℕ → ℕ → α) (hP : ∀ i < m, ∀ j < m, 
   · exact le_rfl
   · exact div_nonneg (sq_nonneg _) (Finset.sum_nonneg fun l hl => hP l (Finset.mem_range.1 hl) k (Finset.mem_range.1 hk))
 
+/-- Rayleigh quotient of `Q` is at most 1: `Σ_ij p_x(i) Q(i,j) x_i x_j ≤ Σ_i p_x(i) x_i²` -/
+theorem qMat_le_one (m : ℕ) (P : ℕ → ℕ → α) (hP : ∀ i < m, ∀ j < m, 0 ≤ P i j) (x : ℕ → α) :
+    ∑ i ∈ range m, ∑ j ∈ range m, (∑ l ∈ range m, P i l) * qMatG (0 : α) m P i j * (x i * x j)
+      ≤ ∑ i ∈ range m, (∑ l ∈ range m, P i l) * x i ^ 2 := by
+  rw [(qMat_psd m P hP x).1]
+  have hR : ∑ i ∈ range m, (∑ l ∈ range m, P i l) * x i ^ 2 = ∑ k ∈ range m, ∑ i ∈ range m, P i k * x i ^ 2 := by
+    rw [Finset.sum_comm]
+    refine Finset.sum_congr rfl fun i _ => ?_
+    rw [Finset.sum_mul]
+  rw [hR]
+  refine Finset.sum_le_sum fun k hk => ?_
+  have hk' := Finset.mem_range.1 hk
+  have hnn : ∀ i ∈ range m, 0 ≤ P i k := fun i hi => hP i (Finset.mem_range.1 hi) k hk'
+  split
+  · exact Finset.sum_nonneg fun i hi => mul_nonneg (hnn i hi) (sq_nonneg _)
+  · rename_i hc
+    have hpos : 0 < ∑ l ∈ range m, P l k := lt_of_le_of_ne (Finset.sum_nonneg hnn) (Ne.symm hc)
+    rw [div_le_iff₀ hpos]
+    have cs := Finset.sum_sq_le_sum_mul_sum_of_sq_le_mul (range m) (r := fun i => P i k * x i)
+      (f := fun i => P i k) (g := fun i => P i k * x i ^ 2) hnn
+      (fun i hi => mul_nonneg (hnn i hi) (sq_nonneg _)) (fun i _ => le_of_eq (by ring))
+    linarith [cs, mul_comm (∑ l ∈ range m, P l k) (∑ i ∈ range m, P i k * x i ^ 2)]
+
+/-- every eigenvalue of `Q` (with an eigenvector that is not supported on empty rows only) lies in `[0, 1]` -/
+theorem qMat_eigenvalue_bounds (m : ℕ) (P : ℕ → ℕ → α) (hP : ∀ i < m, ∀ j < m, 0 ≤ P i j) (x : ℕ → α) (lam : α)
+    (hx : ∀ i < m, ∑ j ∈ range m, qMatG (0 : α) m P i j * x j = lam * x i)
+    (hS : 0 < ∑ i ∈ range m, (∑ l ∈ range m, P i l) * x i ^ 2) : 0 ≤ lam ∧ lam ≤ 1 := by
+  have hform : ∑ i ∈ range m, ∑ j ∈ range m, (∑ l ∈ range m, P i l) * qMatG (0 : α) m P i j * (x i * x j)
+      = lam * ∑ i ∈ range m, (∑ l ∈ range m, P i l) * x i ^ 2 := by
+    rw [Finset.mul_sum]
+    refine Finset.sum_congr rfl fun i hi => ?_
+    have : ∑ j ∈ range m, (∑ l ∈ range m, P i l) * qMatG (0 : α) m P i j * (x i * x j)
+        = (∑ l ∈ range m, P i l) * x i * ∑ j ∈ range m, qMatG (0 : α) m P i j * x j := by
+      rw [Finset.mul_sum]
+      exact Finset.sum_congr rfl fun j _ => by ring
+    rw [this, hx i (Finset.mem_range.1 hi)]
+    ring
+  have h0 := (qMat_psd m P hP x).2
+  have h1 := qMat_le_one m P hP x
+  rw [hform] at h0 h1
+  constructor
+  · by_contra hneg
+    have : lam * ∑ i ∈ range m, (∑ l ∈ range m, P i l) * x i ^ 2 < 0 := mul_neg_of_neg_of_pos (not_le.1 hneg) hS
+    linarith
+  · by_contra hgt
+    have : 1 * ∑ i ∈ range m, (∑ l ∈ range m, P i l) * x i ^ 2 < lam * ∑ i ∈ range m, (∑ l ∈ range m, P i l) * x i ^ 2 :=
+      mul_lt_mul_of_pos_right (not_le.1 hgt) hS
+    linarith
+
 end field
 
 /-! ## `ignore_zeros`: row and column 0 of the count matrix cleared -/
